@@ -6,6 +6,7 @@
 
 '''Classes for local RPC server and remote client TCP/SSL servers.'''
 
+import asyncio
 import codecs
 import itertools
 import json
@@ -138,6 +139,8 @@ class SessionManager:
         self._method_counts = defaultdict(int)
         self._reorg_count = 0
         self._notified_reorg_count = 0
+        # Serialises notification passes; see _notify_sessions()
+        self._notify_lock = asyncio.Lock()
         self._history_invalidations = 0
         self._history_cache = pylru.lrucache(1000)
         self._history_lookups = 0
@@ -853,6 +856,13 @@ class SessionManager:
 
     async def _notify_sessions(self, height, touched):
         '''Notify sessions about height changes and touched addresses.'''
+        # The block processor's and the mempool's tasks both get here.  Passes must not
+        # overlap: a slow older pass would send its (by then stale) statuses and tip after
+        # those of a newer one, and clients would be left holding them.
+        async with self._notify_lock:
+            await self._notify_sessions_locked(height, touched)
+
+    async def _notify_sessions_locked(self, height, touched):
         # A reorg can replace the tip without changing the height
         height_changed = (height != self.notified_height
                           or self._reorg_count != self._notified_reorg_count)
